@@ -192,7 +192,15 @@ func instrument(name string, src []byte, o instOpts) ([]byte, map[string]int, er
 			}
 		}
 	}
-	sort.Slice(edits, func(i, j int) bool { return edits[i].start > edits[j].start })
+	// apply from the end of the file backwards; at equal offsets a replacement
+	// (end > start) is applied before a pure insertion, so that the inserted text
+	// ends up in front of the replaced one
+	sort.SliceStable(edits, func(i, j int) bool {
+		if edits[i].start != edits[j].start {
+			return edits[i].start > edits[j].start
+		}
+		return edits[i].end > edits[j].end
+	})
 	out := append([]byte(nil), src...)
 	for _, e := range edits {
 		out = append(out[:e.start], append([]byte(e.text), out[e.end:]...)...)
